@@ -622,3 +622,17 @@ seed('c01-prm-solution-not-reversed', 'C01', [(PRMC, "    p->append(statePropert
 seed('c01-n-rrt-path-reverse-iterator', 'C01', [(RRTC, "        for (int i = mpath.size() - 1; i >= 0; --i)\n            path->append(mpath[i]->state);", "        for (auto it = mpath.rbegin(); it != mpath.rend(); ++it)\n            path->append((*it)->state);")], None)
 seed('c01-n-rrt-list-reversed-then-forward', 'C01', [(RRTC, "        for (int i = mpath.size() - 1; i >= 0; --i)\n            path->append(mpath[i]->state);", "        std::reverse(mpath.begin(), mpath.end());\n        for (auto &m : mpath)\n            path->append(m->state);")], None)
 seed('c02-rrt-path-assembled-leaf-first', 'C02', [(CRRT, "        for (int i = mpath.size() - 1; i >= 0; --i)\n            if (mpath[i]->parent)", "        for (std::size_t i = 0; i < mpath.size(); ++i)\n            if (mpath[i]->parent)")], 'R02k')
+STRC = 'src/ompl/geometric/planners/rrt/src/STRRTstar.cpp'
+RRTCC5 = 'src/ompl/geometric/planners/rrt/src/RRTConnect.cpp'
+CONSTR = 'src/ompl/base/src/Constraint.cpp'
+GRIDH = 'src/ompl/datastructures/Grid.h'
+seed('c03-strrtstar-prune-leaks-scratch', 'C03', [(STRC, "                        si_->freeState(tgi.xstate);\n                    }\n                }\n                // Free motion and state", "                    }\n                }\n                // Free motion and state")], 'R03d')
+seed('c03-rrtconnect-early-return-leaks-field-temp', 'C03', [(RRTCC5, "            if (tGoal_->size() == 0)\n            {\n", "            if (tGoal_->size() == 0)\n            {\n                if (ptc)\n                    return base::PlannerStatus::TIMEOUT;\n")], 'R03d')
+seed('c03-pdst-resume-one-arg-goal-test', 'C03', [(GPDST, "!goal->isSatisfied(lastGoalMotion_->endState_, &closestDistanceToGoal);", "!goal->isSatisfied(lastGoalMotion_->endState_);")], 'R03n')
+seed('c16-project-success-by-failed-test', 'C16', [(CONSTR, "    return norm < squaredTolerance;\n}\n\ndouble ompl::base::Constraint::distance", "    return !(norm > squaredTolerance);\n}\n\ndouble ompl::base::Constraint::distance")], 'R16f')
+seed('c16-n-project-verdict-if-form', 'C16', [(CONSTR, "    return norm < squaredTolerance;\n}\n\ndouble ompl::base::Constraint::distance", "    if (norm < squaredTolerance)\n        return true;\n    return false;\n}\n\ndouble ompl::base::Constraint::distance")], None)
+seed('c13-components-swap-pop-no-step-back', 'C13', [(GRIDH, "                            --index;\n                            q.erase(q.begin() + index);", "                            std::swap(q[index - 1], q.back());\n                            q.pop_back();")], 'R13e')
+seed('c13-n-components-swap-pop-step-back', 'C13', [(GRIDH, "                            --index;\n                            q.erase(q.begin() + index);", "                            --index;\n                            std::swap(q[index], q.back());\n                            q.pop_back();")], None)
+seed('c12-sibling-guard-shift-form-odd-size', 'C12', [(PDFH, "if (index + 2 == data_.size() && index % 2 == 0)", "if ((index >> 1) == (data_.size() >> 1) - 1)")], 'R12c')
+seed('c12-n-sibling-guard-parent-form', 'C12', [(PDFH, "if (index + 2 == data_.size() && index % 2 == 0)", "if ((index >> 1) == ((data_.size() - 1) >> 1))")], None)
+seed('c12-n-sibling-guard-bit-test', 'C12', [(PDFH, "if (index + 2 == data_.size() && index % 2 == 0)", "if (index + 2 == data_.size() && (index & 1) == 0)")], None)
